@@ -49,23 +49,24 @@ PROPS = {
         partial=['projection lemma machine -> open lock model is not proved (tied by correspondence only)'],
     ),
     'C10': dict(
-        gen=['Stream', 'Lock'], props=['C10', 'C09'], model=['Prim/Stream', 'Prim/Lock', 'Machine/Run', 'Judge/Judges'], harness='c10',
+        gen=['Stream', 'Lock'], props=['C10', 'C09', 'MachineObjects'], model=['Prim/Stream', 'Prim/Lock', 'Machine/Run', 'Judge/Judges', 'Lemmas/KView', 'Lemmas/OView', 'Lemmas/OStepFrames', 'Lemmas/OStep'], harness='c10',
         trusted_base=KERNEL_TB + MACHINE_TB + [
             'shape templates (exact AST match, else broken obligation): Queue.put/_await_message/close/__aiter__/__await__ and the lock methods',
         ],
         assumptions=['the open queue model collapses every non-buffer action (mutex hand-over, waits, aborts) into `other`; that the '
                      'code touches the buffer only in put/popleft is pinned by the templates and checked by the exact trace correspondence',
                      'receiver order follows from the read mutex (C09 theorems are part of this check)'],
-        partial=['receivers_fifo is inherited from the lock theorems (designation_is_head), not restated on the queue model'],
+        partial=['receivers_fifo is inherited from the lock theorems (designation_is_head), not restated on the queue model',
+                 'Props/MachineObjects.lean proves on the whole machine, for every program and every number of steps, that a closed queue stays closed and that its buffer is from then on a suffix of what it was (closed_queue_forever: nothing is stored after close, items leave from the front); that the machine refines the open queue model step by step is not proved (tied by correspondence)'],
     ),
     'C11': dict(
-        gen=['Stream'], props=['C11'], model=['Prim/Stream', 'Machine/Run', 'Judge/Judges'], harness='c11',
+        gen=['Stream'], props=['C11', 'MachineObjects'], model=['Prim/Stream', 'Machine/Run', 'Judge/Judges', 'Lemmas/KView', 'Lemmas/OView', 'Lemmas/OStepFrames', 'Lemmas/OStep'], harness='c11',
         trusted_base=KERNEL_TB + MACHINE_TB + [
             'shape templates (exact AST match, else broken obligation): Channel.put/__await__/__aiter__/close',
             'prompt finalisation of abandoned async generators (reference counting) is assumed',
         ],
         assumptions=['consumers are identified by their registration key (the sentinel object)'],
-        partial=[],
+        partial=['Props/MachineObjects.lean proves on the whole machine, for every program and every number of steps, that a closed channel stays closed (closed_channel_forever); that the machine refines the open channel model step by step is not proved (tied by correspondence)'],
     ),
     'C12': dict(
         gen=['Resources'], props=['C12'], model=['Prim/Resources', 'Machine/Run', 'Judge/Judges'], harness='c12',
@@ -131,16 +132,16 @@ PROPS = {
                  "owner's stack; termination / no livelock) are not proved: exact trace correspondence + judge only"],
     ),
     'C04': dict(
-        gen=['Scope'], props=['C04'], model=['Machine/Run', 'Machine/Step', 'Machine/Kernel', 'Judge/Judges'], harness='c04',
+        gen=['Scope'], props=['C04', 'MachineObjects'], model=['Machine/Run', 'Machine/Step', 'Machine/Kernel', 'Judge/Judges', 'Lemmas/KView', 'Lemmas/OView', 'Lemmas/OStepFrames', 'Lemmas/OStep'], harness='c04',
         trusted_base=KERNEL_TB + MACHINE_TB + ['coroutine skeletons pinned by regenerated templates (context.py, task.py, timing/notification/condition/flag, tracked.py)'],
         assumptions=['valid programs only: the generators avoid usage errors (past at= dates, negative delays, inverting a Moment)'],
-        partial=['the containment invariant over all reachable machine states is not proved: exact trace correspondence + judge only'],
+        partial=['Props/MachineObjects.lean proves on the whole machine, for every program and every number of steps, that a scope closed to new tasks stays closed and never gains a child (closed_scope_gains_no_child: its lists of children only shrink) and keeps its identity; the rest of the containment invariant (every child of a scope that has been left is done, no code of it runs afterwards) is not proved over all reachable machine states: exact trace correspondence + judge only'],
     ),
     'C05': dict(
-        gen=['Scope'], props=['C05'], model=['Machine/Run', 'Machine/Step', 'Machine/Kernel', 'Judge/Judges'], harness='c05',
+        gen=['Scope'], props=['C05', 'MachineObjects'], model=['Machine/Run', 'Machine/Step', 'Machine/Kernel', 'Judge/Judges', 'Lemmas/KView', 'Lemmas/OView', 'Lemmas/OStepFrames', 'Lemmas/OStep'], harness='c05',
         trusted_base=KERNEL_TB + MACHINE_TB + ['coroutine skeletons pinned by regenerated templates (context.py, task.py, timing/notification/condition/flag, tracked.py)'],
         assumptions=['valid programs only: the generators avoid usage errors (past at= dates, negative delays, inverting a Moment)'],
-        partial=['prompt_abort (block ends in the time step of the first failure) is not proved: judge + correspondence only'],
+        partial=['Props/MachineObjects.lean proves on the whole machine, for every program and every number of steps, that exception objects are never modified (exception_objects_immutable) and that the failures a scope has recorded are never removed or reordered (failures_append_only); prompt_abort (block ends in the time step of the first failure) is not proved: judge + correspondence only'],
     ),
     'C06': dict(
         gen=['Scope'], props=['C06', 'MachineTasks'],
@@ -193,14 +194,14 @@ PROPS = {
         partial=[],
     ),
     'C18': dict(
-        gen=['Py', 'Scope'], props=['C18', 'C05', 'Skeletons'], model=['Machine/Run', 'Machine/Step', 'Judge/Judges'], harness='c18',
+        gen=['Py', 'Scope'], props=['C18', 'C05', 'MachineObjects', 'Skeletons'], model=['Machine/Run', 'Machine/Step', 'Judge/Judges', 'Lemmas/KView', 'Lemmas/OView', 'Lemmas/OStepFrames', 'Lemmas/OStep'], harness='c18',
         trusted_base=KERNEL_TB + MACHINE_TB + [
             'translated from source: trigger-once guards, interrupt acceptance and queue discipline, AllOf/AnyOf evaluation, Timeout/until guards, schedule\'s delay normalisation; all 95 definitions of usim/py pinned against recorded skeletons',
             'the coroutines of usim/py (Process._run_payload, _wait_interruptible, Condition._check_events, Event._invoke_callbacks, AwaitableEvent.wait_interruptible, Environment.until/__aenter__) are hand-modelled as frames of the machine and tied by exact trace correspondence only',
             'SimPy programs are written in a small instruction language (one instruction per generator statement); Python generator mechanics (send/throw/StopIteration) are modelled'],
         assumptions=['a delay of d resumes at now + d, wake-ups of one time step run in order (C01, C02); scopes report failures (C05)',
                      'judge: in ties within one time step (a member failing while another fires, an Interrupt-valued event while an interrupt is pending) both readings are accepted'],
-        partial=[],
+        partial=['Props/MachineObjects.lean proves on the whole machine, for every program and every number of steps, that an event that has a value keeps exactly that value (event_triggered_once) and keeps its flag and kind; resumption of every waiter at the trigger time is judged on traces, not proved over all machine states'],
     ),
     'C20': dict(
         gen=['Timing', 'Scope'], props=['C20', 'C02', 'Skeletons'], model=['Machine/Run', 'Machine/Step', 'Judge/Judges'], harness='c20',
@@ -298,7 +299,7 @@ MANIFEST_TEXT = {
         technique='Lean 4 invariant proof over all action sequences + exact whole-machine differential traces + Lean trace judge',
         design_ref='6 (C09), 3, 4.B'),
     'C10': dict(
-        level='Lean 4 theorems over an open queue model for every sequence of put / completed receive / close / arbitrary abort actions: '
+        level='On the whole machine, for every program and every number of steps: closed_queue_forever, queue_identity (Props/MachineObjects.lean). Lean 4 theorems over an open queue model for every sequence of put / completed receive / close / arbitrary abort actions: '
               'exactly_once_in_order (received ++ buffered = accepted as sequences), abort_preserves, put_on_closed, closed_stays, '
               'buffered_still_received; receiver order from the lock theorems of C09 (read mutex). Tied to streams.py by regenerated '
               'templates; the executable whole-machine model (queue + mutex + notification + kernel) reproduces the real usim to the '
@@ -308,7 +309,7 @@ MANIFEST_TEXT = {
         technique='Lean 4 refinement to a FIFO sequence spec + exact whole-machine differential traces + Lean trace judge',
         design_ref='6 (C10), 3, 4.B'),
     'C11': dict(
-        level='Lean 4 theorems over an open channel model for every sequence of subscribe / put / deliver / leave / close actions: '
+        level='On the whole machine, for every program and every number of steps: closed_channel_forever (Props/MachineObjects.lean). Lean 4 theorems over an open channel model for every sequence of subscribe / put / deliver / leave / close actions: '
               'broadcast_exact (per consumer: delivered ++ buffered = messages put since its subscription), isolation, '
               'first_after_subscription, deregister_exact, put_on_closed; tied to streams.py by regenerated templates; exact '
               'whole-machine correspondence and Lean judge on implementation traces.',
@@ -364,12 +365,12 @@ MANIFEST_TEXT = {
         technique='Lean 4 theorems (decision logic / per-primitive / frame level) + exact whole-machine differential traces + Lean trace judge',
         design_ref='6 (C03), 3, 4.B'),
     'C04': dict(
-        level='Lean 4 theorems: childFinished_children/volatile (exact child bookkeeping), spawn_after_end_refused (late do() raises ScopeClosed, creates and schedules nothing), pinned skeletons. The executable whole-machine model reproduces the real usim to the turn on scope trees and random valid programs with faults at every activation boundary; the Lean judge checks on every implementation trace: after every scope exit none of its (transitive) tasks acts, all are done, no late spawn succeeds, non-volatile children of a normally ending plain scope ran to completion before volatile ones were closed.',
+        level='On the whole machine, for every program and every number of steps: closed_scope_gains_no_child, scope_identity (Props/MachineObjects.lean, sixth per-function inventory). Lean 4 theorems: childFinished_children/volatile (exact child bookkeeping), spawn_after_end_refused (late do() raises ScopeClosed, creates and schedules nothing), pinned skeletons. The executable whole-machine model reproduces the real usim to the turn on scope trees and random valid programs with faults at every activation boundary; the Lean judge checks on every implementation trace: after every scope exit none of its (transitive) tasks acts, all are done, no late spawn succeeds, non-volatile children of a normally ending plain scope ran to completion before volatile ones were closed.',
         note='trusted: Lean kernel + standard axioms; templates/translator; whole-machine model tied by exact traces; the containment invariant over all reachable machine states is not proved: exact trace correspondence + judge only',
         technique='Lean 4 theorems (decision logic / per-primitive / frame level) + exact whole-machine differential traces + Lean trace judge',
         design_ref='6 (C04), 3, 4.B'),
     'C05': dict(
-        level="Lean 4 theorems: collect_spec, propagate_eq, concurrent_content (exact children, in order, never cancellations/closures, only when the body has no exception of its own), body_exception_wins, privileged_first, privileged_body_propagates over the translated decision logic and tuples. The executable whole-machine model reproduces the real usim to the turn on scope trees and random valid programs with faults at every activation boundary; the Lean judge checks on every implementation trace: content and order of every caught Concurrent against the children's recorded failures, privileged unwrapping, exit time = first failure time.",
+        level="On the whole machine, for every program and every number of steps: exception_objects_immutable, failures_append_only (Props/MachineObjects.lean). Lean 4 theorems: collect_spec, propagate_eq, concurrent_content (exact children, in order, never cancellations/closures, only when the body has no exception of its own), body_exception_wins, privileged_first, privileged_body_propagates over the translated decision logic and tuples. The executable whole-machine model reproduces the real usim to the turn on scope trees and random valid programs with faults at every activation boundary; the Lean judge checks on every implementation trace: content and order of every caught Concurrent against the children's recorded failures, privileged unwrapping, exit time = first failure time.",
         note='trusted: Lean kernel + standard axioms; templates/translator; whole-machine model tied by exact traces; prompt_abort (block ends in the time step of the first failure) is not proved: judge + correspondence only',
         technique='Lean 4 theorems (decision logic / per-primitive / frame level) + exact whole-machine differential traces + Lean trace judge',
         design_ref='6 (C05), 3, 4.B'),
@@ -427,7 +428,7 @@ MANIFEST_TEXT = {
         technique='Lean 4 proof over the frame machine + exact whole-machine differential traces + Lean trace judge',
         design_ref='6 (C16)'),
     'C18': dict(
-        level='Lean 4 theorems for every world state on the machine\'s model of usim/py, tied to decisions translated from '
+        level='On the whole machine, for every program and every number of steps: event_triggered_once, event_identity, second_trigger_refused (Props/MachineObjects.lean). Lean 4 theorems for every world state on the machine\'s model of usim/py, tied to decisions translated from '
               'events.py/core.py on every run: a second trigger is refused and changes nothing, the first stores exactly its value, a '
               'value once set is final (trigger_twice_refused, trigger_sets_value, value_is_final), callbacks run in one step and '
               'never twice, an undefused failure raises in the callback task and until() unwraps it (callbacks_run_once, '
